@@ -10,11 +10,32 @@
 #include <string.h>
 #include <assert.h>
 
+/*
+ * number of bytes of n blocks, computed in size_t
+ * return false when block_size * n does not fit size_t
+ */
+static bool muggle_memory_pool_blocks_bytes(uint32_t block_size, uint32_t n, size_t *bytes)
+{
+	if (block_size != 0 && (size_t)n > SIZE_MAX / (size_t)block_size)
+	{
+		return false;
+	}
+	*bytes = (size_t)block_size * (size_t)n;
+	return true;
+}
+
 bool muggle_memory_pool_init(muggle_memory_pool_t* pool, uint32_t init_capacity, uint32_t block_size)
 {
 	memset(pool, 0, sizeof(muggle_memory_pool_t));
 	init_capacity = init_capacity == 0 ? 8 : init_capacity;
 	if (block_size == 0)
+	{
+		return false;
+	}
+
+	// NOTE: block_size * init_capacity must not be evaluated in uint32_t
+	size_t data_bytes = 0;
+	if (!muggle_memory_pool_blocks_bytes(block_size, init_capacity, &data_bytes))
 	{
 		return false;
 	}
@@ -31,7 +52,7 @@ bool muggle_memory_pool_init(muggle_memory_pool_t* pool, uint32_t init_capacity,
 		pool->memory_pool_data_bufs = NULL;
 		return false;
 	}
-	pool->memory_pool_data_bufs[0] = (void*)malloc(block_size * init_capacity);
+	pool->memory_pool_data_bufs[0] = (void*)malloc(data_bytes);
 	if (pool->memory_pool_data_bufs[0] == NULL)
 	{
 		free(pool->memory_pool_data_bufs);
@@ -66,7 +87,7 @@ bool muggle_memory_pool_init(muggle_memory_pool_t* pool, uint32_t init_capacity,
 	uint32_t i;
 	for (i = 0; i < init_capacity; ++i)
 	{
-		pool->memory_pool_ptr_buf[i] = (void*)((char*)ptr_buf + i * block_size);
+		pool->memory_pool_ptr_buf[i] = (void*)((char*)ptr_buf + (size_t)i * block_size);
 	}
 
 	return true;
@@ -141,13 +162,18 @@ bool muggle_memory_pool_ensure_space(muggle_memory_pool_t* pool, uint32_t capaci
 
 	// allocate new data buffer
 	uint32_t delta_size = capacity - pool->capacity;
+	size_t delta_bytes = 0;
+	if (!muggle_memory_pool_blocks_bytes(pool->block_size, delta_size, &delta_bytes))
+	{
+		return false;
+	}
 	void** new_bufs = (void**)malloc(sizeof(void*) * (pool->num_buf + 1));
 	if (new_bufs == NULL)
 	{
 		return false;
 	}
 	memcpy(new_bufs, pool->memory_pool_data_bufs, sizeof(void*) * pool->num_buf);
-	new_bufs[pool->num_buf] = (void*)malloc(pool->block_size * delta_size);
+	new_bufs[pool->num_buf] = (void*)malloc(delta_bytes);
 	if (new_bufs[pool->num_buf] == NULL)
 	{
 		free(new_bufs);
@@ -250,7 +276,7 @@ bool muggle_memory_pool_ensure_space(muggle_memory_pool_t* pool, uint32_t capaci
 	uint32_t i;
 	for (i = 0; i < delta_size; ++i)
 	{
-		new_ptr_buf[offset + i] = (void*)((char*)pool->memory_pool_data_bufs[pool->num_buf] + i * pool->block_size);
+		new_ptr_buf[offset + i] = (void*)((char*)pool->memory_pool_data_bufs[pool->num_buf] + (size_t)i * pool->block_size);
 	}
 
 	// free old pointer buffer and reset pointer buffer
